@@ -357,6 +357,10 @@ func (run *propRun) report(id, tier string, seed int, start time.Time, update bo
 			known[f.Obligation+" — "+f.What] = true
 			continue
 		}
+		if why, ok := assumedObs[o.Key]; ok {
+			run.assumedSites = append(run.assumedSites, o.Key+": "+why)
+			continue
+		}
 		viols = append(viols, violation{Key: o.Key, Detail: map[string]any{"obligation": o.Key, "kind": o.Kind, "position": o.Pos, "reason": o.Why}})
 	}
 	// ledger obligations that are no longer generated
